@@ -27,10 +27,46 @@ inductive Delivery where
   | mergeUpd (upd : List (RouteKey × Option Nat))
   deriving Repr, DecidableEq
 
+/-- A node as a view of the published state shows it: its attributes and the host filter's verdict. -/
+structure NodeView where
+  attr : NodeAttr
+  enabled : Bool
+  deriving Repr, DecidableEq
+
+/-- The views of a `ClusterState` onto its topology (cluster/state.rs): `all_nodes` (`get_nodes_info()`, 441),
+`known_nodes` (`get_node_by_host_id`, 446; tablets; the next topology calculation) and the token ring of the locator.
+`ClusterState::new` / `new_updated` / `new_with_updated_topology` (172-273) build ALL of them from the one
+`new_known_nodes` that `calculate_new_topology` (275-341) produced from the peer list. -/
+structure Views where
+  allNodes : List NodeView := []
+  knownNodes : List NodeView := []
+  ring : List NodeView := []
+  deriving Repr, DecidableEq
+
+/-- The host filter of the rig: 0 = reject all, 1 = none, 2 = reject the peers whose rack is 9. -/
+def accepts (filter : Nat) (n : NodeAttr) : Bool :=
+  if filter = 0 then false else if filter = 2 then n.rack != 9 else true
+
+/-- `calculate_new_topology`: one `Node` per peer, enabled iff the host filter accepts the peer. -/
+def nodesOf (filter : Nat) (t : Topo) : List NodeView :=
+  t.nodes.map fun n => { attr := n, enabled := accepts filter n }
+
+/-- The state built from a peer list: every view is filled from the same node list (state.rs:228-233, 263-267). -/
+def viewsOf (filter : Nat) (t : Topo) : Views :=
+  { allNodes := nodesOf filter t, knownNodes := nodesOf filter t, ring := nodesOf filter t }
+
 structure Consumer where
   hasSubscriber : Bool
-  /-- topology of the published `ClusterState`. -/
-  published : Nat
+  /-- topology (peer list) the published `ClusterState` was built from. -/
+  published : Topo
+  /-- host filter mode (see `accepts`). -/
+  filter : Nat := 0
+  /-- the views of the published state. -/
+  views : Views := {}
+  /-- `stamp` of the full fetch whose metadata the published state was last built from (`none`: the initial state). -/
+  publishedStamp : Option Nat := none
+  /-- number of tablet batches applied by the tablets branch (cluster/worker.rs:295-324). -/
+  tabletBatches : Nat := 0
   /-- number of `update_cluster_state` calls. -/
   publications : Nat := 0
   delivered : List Delivery := []
@@ -64,10 +100,11 @@ def consume (c : Consumer) (u : Update) : Consumer :=
   let c2 := { c1 with hintsApplied := c1.hintsApplied ++ downs }
   match u1.changes with
   | some (.full m rs) =>
-    { c2 with hintsApplied := c2.hintsApplied ++ ups, published := m.peers, publications := c2.publications + 1,
-              answered := c2.answered ++ rs }
+    { c2 with hintsApplied := c2.hintsApplied ++ ups, published := m.peers, views := viewsOf c2.filter m.peers,
+              publishedStamp := some m.stamp, publications := c2.publications + 1, answered := c2.answered ++ rs }
   | some (.part { peers := some p, .. }) =>
-    { c2 with hintsApplied := c2.hintsApplied ++ ups, published := p, publications := c2.publications + 1 }
+    { c2 with hintsApplied := c2.hintsApplied ++ ups, published := p, views := viewsOf c2.filter p,
+              publications := c2.publications + 1 }
   | _ => { c2 with hintsApplied := c2.hintsApplied ++ ups }
 
 /-- `wait_until_all_pools_are_initialized` (cluster/state.rs:94-98, awaited at cluster/worker.rs:466-468 BEFORE the new
@@ -83,6 +120,15 @@ def consumeWaiting (c : Consumer) (u : Update) (pools : List C19PoolInit.Pool) :
   | some _ => if poolsInitialized pools then some (consume c u) else none
   | none => some (consume c u)          -- nothing to publish: the pools are not waited for
 
+/-- The tablets branch of `ClusterWorker::work` (cluster/worker.rs:295-324): load the CURRENT state, clone it, apply the
+tablets, store it - the topology views are those of the state it loaded. -/
+def applyTablets (c : Consumer) : Consumer :=
+  { c with tabletBatches := c.tabletBatches + 1, publications := c.publications + 1 }
+
+/-- The consumer the rig starts with: initial topology `t0`, its state built by `ClusterState::new`. -/
+def Consumer.start (sub : Bool) (filter : Nat) (t0 : Topo) : Consumer :=
+  { hasSubscriber := sub, published := t0, filter := filter, views := viewsOf filter t0 }
+
 /-- Producer → slot → consumer. -/
 structure Pipe where
   slot : Option Update := none
@@ -92,6 +138,7 @@ structure Pipe where
 inductive PEv where
   | merge (op : Op)     -- `Sender::modify(|slot| MetadataUpdate::merge_*(slot, ..))`
   | take                -- `recv()` returned the slot's update and `apply_metadata_update` ran
+  | tablets             -- the tablets branch ran (a batch of tablets arrived from some response)
   deriving Repr
 
 def pstep (s : Pipe) : PEv → Pipe
@@ -100,6 +147,7 @@ def pstep (s : Pipe) : PEv → Pipe
     match s.slot with
     | none => s
     | some u => { slot := none, cons := consume s.cons u }
+  | .tablets => { s with cons := applyTablets s.cons }
 
 def prun (s : Pipe) (evs : List PEv) : Pipe := evs.foldl pstep s
 
@@ -108,10 +156,11 @@ def mergesOf : List PEv → List Op
   | [] => []
   | .merge op :: rest => op :: mergesOf rest
   | .take :: rest => mergesOf rest
+  | .tablets :: rest => mergesOf rest
 
 /-- The topology a reader of the published state sees once the consumer has caught up: the slot's, if it carries
 one, else the published one. -/
-def effectiveTopology (s : Pipe) : Nat :=
+def effectiveTopology (s : Pipe) : Topo :=
   match peersTag s.slot with
   | some t => t
   | none => s.cons.published
